@@ -154,10 +154,10 @@ Fixpoint check_from (before : list event) (h : list (event * out)) : bool :=
 Definition C16_check (h : list (event * out)) : bool := check_from [] h.
 
 (* ---- well-formed histories (hypotheses of the theorems, each justified in design.d/C16.md) ---- *)
-(* a JSON text is never empty; SENDALL is a command, not a topic *)
+(* a JSON text is never empty *)
 Definition wf_event (e : event) : Prop :=
   match e with
-  | Update tag _ text => text <> EmptyString /\ tag <> "SENDALL"%string
+  | Update _ _ text => text <> EmptyString
   | _ => True
   end.
 (* the object determines the text and vice versa: text = json.Marshal(object) *)
